@@ -17,8 +17,8 @@ import z3
 
 from . import source
 from .core import Obligation, PROVED, REFUTED, UNDECIDED, ERROR
-from .symexec import (Interp, PyRaise, SBool, SDict, SFloat, SInt, SList, SObj, SOpaque, SSet, SStr, STuple, SV, Sorts,
-                      Unsupported, _Tagged)
+from .symexec import (Interp, LoopInvariantFailure, PyRaise, SBool, SDict, SFloat, SInt, SList, SObj, SOpaque, SSet, SStr,
+                      STuple, SV, Sorts, Unsupported, _Tagged)
 
 
 @dataclass
@@ -247,6 +247,11 @@ class EngineB:
                         continue
                     model = self._model_from(s.model(), inputs, Z)
                     failures[cl.name].append((f"clause false on a feasible path; model {model}", model, path))
+        except LoopInvariantFailure as e:
+            for name, ob in obs.items():
+                ob.status = REFUTED if "counterexample" in str(e) else UNDECIDED
+                ob.detail = f"loop invariant obligation failed: {e}"
+            return list(obs.values())
         except Refuted as e:
             for name, ob in obs.items():
                 if name == "no-exception-escapes":
@@ -320,7 +325,7 @@ class EngineB:
         from .core import run_native
         target = case.native_target or c.qualname
         cands = []
-        if case.native_target is None or not case.native_target.startswith("pyvc.frag"):
+        if case.native_target is None or not case.native_target.startswith("pyvc."):
             for m in getattr(ob, "_models", []) or []:
                 if m:
                     cands.append(m)
